@@ -36,13 +36,24 @@ impl Year {
 		}
 	}
 
+	/// Astronomical year numbering: 1 BC is year 0, 2 BC is year -1, etc.
+	/// The Gregorian leap-year and weekday rules are periodic in this number.
+	pub(crate) fn astronomical(self) -> i32 {
+		if self.value() < 0 {
+			self.value() + 1
+		} else {
+			self.value()
+		}
+	}
+
 	pub(crate) fn is_leap_year(self) -> bool {
-		if self.value() % 400 == 0 {
+		let year = self.astronomical();
+		if year % 400 == 0 {
 			true
-		} else if self.value() % 100 == 0 {
+		} else if year % 100 == 0 {
 			false
 		} else {
-			self.value() % 4 == 0
+			year % 4 == 0
 		}
 	}
 
